@@ -25,7 +25,7 @@ def conv(px3_or_1, src_fmt, dst_fmt):
     return px3_or_1[::-1]
 
 
-def mk_scenario(nops, ops=None, planted=None, sym_size=True):
+def mk_scenario(nops, ops=None, planted=None, sym_size=True, first_ops=None):
     OPS = ops or (VIEWS + OTHER)
     def scenario(e):
         LOG.clear()
@@ -69,7 +69,8 @@ def mk_scenario(nops, ops=None, planted=None, sym_size=True):
                         same([jpg.fn(si, sj, c) for c in range(n)], px(img), 'jpg-cache: cached jpg does not decode to the current pixels', 'jpg-stale')
 
         for step in range(nops):
-            op = OPS[e.choice(f'op{step}', len(OPS))]
+            ops_here = first_ops if (first_ops and step == 0) else OPS
+            op = ops_here[e.choice(f'op{step}', len(ops_here))]
             t = live[e.choice(f'tgt{step}', len(live))] if len(live) > 1 else live[0]
             tf = t.format
             if op in VIEWS:
@@ -173,7 +174,7 @@ def harnesses(tier):
                           'image size': 'symbolic h,w in [1,4096]', 'pixel index / written values': 'symbolic'},
                   functions=fn, stubs=stubs, assumptions=assume, real_replay=real_replay, budget_s=900)]
     if not q:
-        hs.append(Harness('c10.op_sequences.4', mk_scenario(4, ops=VIEWS + ['copy', 'jpg', 'from_jpg', 'write']), bounds={'operations': 4, 'op kinds': '13 (9 views, copy, jpg, from_jpg undecoded, write pixel)'}, functions=fn, stubs=stubs, assumptions=assume,
+        hs.append(Harness('c10.op_sequences.4', mk_scenario(4, ops=VIEWS + ['copy', 'jpg', 'from_jpg', 'write'], first_ops=['from_jpg', 'from_frame_fmt', 'ro', 'jpg']), bounds={'operations': 4, 'first operation': 'from_jpg / relabel / ro / jpg', 'then': '13 kinds (9 views, copy, jpg, from_jpg undecoded, write pixel)'}, functions=fn, stubs=stubs, assumptions=assume,
                           real_replay=real_replay, budget_s=3000))
     return hs
 
